@@ -35,8 +35,7 @@ FAR = 1000.0
 # (n of base multisets, k, two_cluster)
 STRATA = {
     "quick": [(2, 1, False), (2, 1, True), (2, 8, False), (2, 8, True), (2, 24, False), (2, 12, True), (1, 100, True)],
-    "thorough": [(3, 1, False), (3, 1, True), (3, 8, False), (3, 8, True), (2, 40, False), (2, 40, True),
-                 (2, 120, False), (2, 120, True), (1, 300, True)],
+    "thorough": [(3, 1, False), (3, 1, True), (3, 8, False), (2, 8, True), (2, 40, False), (2, 24, True), (1, 200, True)],
 }
 WTOL = 1e-9
 AFFINE = (0.1, -3.7)
@@ -45,7 +44,7 @@ DIAG_Y = [[0.0, 0.0], [1.5, 1.5], [1000.0, 1000.0]]
 
 
 # ---- "generic" large diagrams: a deterministic Weyl (irrational rotation) family, no ties --------
-GENERIC = {"quick": {"n": [48, 64, 96], "k": 4}, "thorough": {"n": [48, 64, 96, 150, 250], "k": 4}}
+GENERIC = {"quick": {"n": [48, 64, 96], "k": 4}, "thorough": {"n": [48, 64, 96, 150, 200], "k": 4}}
 
 
 def weyl(n, k):
